@@ -494,7 +494,7 @@ func c13Mutants(seeds []c13Seed, pairs bool) []c13Mutant {
 				// M5 attribute corruption
 				for ai, a := range n0.Attrs {
 					key := n0.Local + "/" + a.Local
-					for _, v := range []string{"", "bogus", "-1", "20200230T000000Z", "2020"} {
+					for _, v := range []string{"", "bogus", "-1", "20200230T000000Z", "2020", "20200101T000000,5Z", "20200101T000000.0Z", "20200101T000000,000Z"} {
 						t := cloneTree(root)
 						n, _, _ := nodeAt(t, p)
 						n.Attrs[ai].Value = v
@@ -528,6 +528,16 @@ func c13Mutants(seeds []c13Seed, pairs bool) []c13Mutant {
 							cls = "empty"
 						}
 						add(s, "M5-nresults-"+cls, "invalid-limit", q)
+					}
+					// legal limits, only very large: no malformation, but the handler must answer (no allocation
+					// by the announced number)
+					for _, v := range []string{"9007199254740993", "9223372036854775807", "4611686018427387904"} {
+						t := cloneTree(root)
+						n, _, _ := nodeAt(t, p)
+						n.Text = v
+						q := cloneReq(s.Req)
+						q.Body = xmlSerialize(t)
+						add(s, "M5-nresults-huge-but-legal", "", q)
 					}
 				}
 			}
